@@ -146,7 +146,7 @@ def on_grid(rng, dr, lo, hi):
     return float(round(m * dr, 10))
 
 
-def gen_pot(rng, sig, allow=('HS', 'HS', 'HCLJ', 'EXP', 'LJ', 'WCA'), strength=0.5):
+def gen_pot(rng, sig, allow=('HS', 'HS', 'HCLJ', 'EXP', 'LJ', 'WCA'), strength=0.5, explicit_sigma=None):
     pt = str(rng.choice(list(allow)))
     eps = float(rng.uniform(0.05, strength))
     ps = {'t': pt}
@@ -164,6 +164,11 @@ def gen_pot(rng, sig, allow=('HS', 'HS', 'HCLJ', 'EXP', 'LJ', 'WCA'), strength=0
             ps.update({'rcut': 2.0 * sig, 'shift': False})
     elif pt == 'WCA':
         ps['eps'] = 2 * eps
+    if explicit_sigma is not None and rng.random() < 0.2:
+        # the user states the contact distance on the potential itself: equal to the mean diameter or one grid step larger
+        ps['sigma'] = float(sig + (explicit_sigma if rng.random() < 0.5 else 0.0))
+    if pt in ('HS', 'HCLJ', 'EXP') and rng.random() < 0.15:
+        ps['hv'] = float(rng.choice([1e5, 1e8]))
     return ps
 
 
@@ -191,7 +196,7 @@ def gen_spec(rng, rank=None, fam=None, lengths=LENGTHS, drs=DRS, closures=('PY',
     pot, clo, om = {}, {}, {}
     for (i, j), (a, b) in pairs(types):
         sig = (d[a] + d[b]) / 2
-        pot[pk(a, b)] = gen_pot(rng, sig)
+        pot[pk(a, b)] = gen_pot(rng, sig, explicit_sigma=dr)
         clo[pk(a, b)] = gen_clo(rng, pot[pk(a, b)], closures)
     for t in types:
         if fam == 'atomic' or (fam == 'mixed' and rng.random() < 0.5):
